@@ -6,9 +6,13 @@ RULE = ("random datasets of 0-30 (quick) / 0-50 (thorough) decimal values fed on
         "after `reset` in reversed / ascending / descending / shuffled order. Thorough additionally enumerates every sequence of length <=5 over "
         "{-2, 0, 0.5, 3, 1000000} (3 906 sequences). All 13 observation keys are compared after every update: count, sum, high, low, range, activated and the two "
         "inequality flags literally, mean / M / variance / std_dev / std_dev^2 to 1e-18 (observed worst deviation 1e-23). A case is distinct by the SHA-1 of "
-        "its op lines and non-trivial when the implementation's observation block changes at least once")
+        "its op lines and non-trivial when the implementation's observation block changes at least once. "
+        "Input-domain family d<k> (N/10 further cases, separately seeded): long datasets (100-400 values, thorough up to 1 500); zero spelled -0 / -0.0 / 0.000 and equal values of "
+        "different scales (1.5, 1.50, 1.500000); extreme-but-exact magnitudes (1e-12..1e-4 both signs; 1e4..1e12 of one sign per dataset; tiny next to huge incl. the marks +-1e-8, 1e-10, "
+        "+-1e12, 999999999999.99999999); 12-15 significant digits below 1e11")
 ASSUMPTIONS = [
-    "exact rational arithmetic: the statement's `within decimal rounding` is proved as exact equality over Q; rust_decimal rounding, 96-bit overflow and scale exhaustion are not modelled (generated values have <=6 significant digits, |x| < 1e9, scale <=6, so +,- are exact and * of 28-digit means cannot overflow)",
+    "exact rational arithmetic: the statement's `within decimal rounding` is proved as exact equality over Q; rust_decimal rounding, 96-bit overflow and scale exhaustion are not modelled (generated values have <=6 significant digits, |x| < 1e9, scale <=6, so +,- are exact and * of 28-digit means cannot overflow; the input-domain family d<k> goes to |x| <= 1e12, scale <= 12 and 15 significant digits below 1e11, still inside exact +,- and below the overflow of the squared deviations)",
+    "boundaries of that regime seen while widening the generator (real code, unchanged tree; not generated): two values of magnitude ~1e15 make (x-mean)*(x-mean') exceed 2^96 and DataSetSummary::update panics with `Multiplication overflowed` (e.g. push 1725688884.70136, push -921070049650496); a dataset whose huge values (+-1e12) cancel to a sum of ~1e-5 leaves the 28-digit running mean with an absolute error of ~3e-18 (> the 1e-18 comparison tolerance; e.g. -1e12, 999999999999.99999999, -1e12, -1e-8, 1e12 ...): three values within 1e-8 of each other at magnitude 1e12 (-1e12, -999999999999.99999999 twice) have a spread below the ~1e-16 resolution of the 28-digit running mean, so std_dev (4.7e-9) is off by ~6e-18; all three are decimal rounding / range limits of rust_decimal, so the huge values of one generated dataset all have the same sign and at most one exact huge mark is used per dataset (witnesses with impl / model / spec outputs were kept outside the tree)",
     "Decimal::sqrt is not modelled: the general theorems hold for an arbitrary function sqrtFn in its place; the model driver plugs in sqrtApprox (sqrt truncated to 30 decimals, error bound proved) and the run compares both std_dev and std_dev^2 with the real Decimal::sqrt to 1e-18",
     "the summary starts from DataSetSummary::default() and is changed only by update (a deserialised or hand-built summary is outside the quantifier)",
     "count is a Decimal in the code and never overflows (it is a rational in the model)",
